@@ -68,12 +68,42 @@ pub fn check_rule(c: &RuleCase, st: &mut Stats) -> Result<(), String> {
             probe_instants(r, y, 1, &mut instants);
         }
     }
+    // a sample of the rules is also observed through a v3 TZif file whose footer spells the rule: same rule, same answers
+    let via_footer: Option<tz::TimeZone> = {
+        let mut hsh = std::collections::hash_map::DefaultHasher::new();
+        std::hash::Hash::hash(r, &mut hsh);
+        let hv = std::hash::Hasher::finish(&hsh);
+        if hv % 6 == 0 {
+            match crate::props::c08::spell_trailer(&MTrailer::Alt(r.clone()), &[hv as u32, (hv >> 32) as u32, (hv >> 13) as u32]) {
+                Some((text, _)) => {
+                    let file = crate::tzif::footer_file(3, &text);
+                    let z = tz::TimeZone::from_tz_data(&file).map_err(|e| format!("rule {} spelled as v3 footer {:?} refused: {e:?}", r.spell(), String::from_utf8_lossy(&text)))?;
+                    if z.as_ref().extra_rule() != &extra {
+                        return Err(format!("rule {} spelled as v3 footer {:?} decodes to a different rule {:?}", r.spell(), String::from_utf8_lossy(&text), z.as_ref().extra_rule()));
+                    }
+                    st.class("also_via_v3_footer");
+                    Some(z)
+                }
+                None => None,
+            }
+        } else {
+            None
+        }
+    };
     let tie_rule = matches!(class, Class::AllTie | Class::MixedTieS | Class::MixedTieE);
     let odd_time = r.start_time < 0 || r.start_time > 86400 || r.end_time < 0 || r.end_time > 86400;
     for &u in &instants {
         st.eval(1);
         let exp = model.forward(u);
         let got = zone.find_local_time_type(u);
+        if let Some(z) = &via_footer {
+            let g2 = z.find_local_time_type(u);
+            match (&got, &g2) {
+                (Ok(a), Ok(b)) if a == b => {}
+                (Err(a), Err(b)) if format!("{a:?}") == format!("{b:?}") => {}
+                (a, b) => return Err(format!("rule {}: at u={u} the zone built from the constructor answers {a:?}, the zone decoded from the v3 footer answers {b:?}", r.spell())),
+            }
+        }
         match (exp, &got) {
             (Fwd::Type(t), Ok(l)) => {
                 let want = model.ltt(t);
